@@ -125,24 +125,57 @@ class Probe:
 
 
 class FaultOut(dl.TapOut):
-    def __init__(self, orig, probe, tty=True):
+    """Stream proxy with two delivery models.
+
+    direct   -- every write() reaches the terminal at once; a faulted write delivers a
+                prefix of its data.
+    buffered -- write() only fills a buffer, the terminal is written in flush(); a
+                faulted flush delivers a prefix of what was buffered and the rest is lost
+                (a stream whose interrupted flush is not resumed)."""
+
+    def __init__(self, orig, probe, tty=True, buffered=False):
         super().__init__(orig, mark=False, tty=tty)
         self.probe = probe
+        self.buffered = buffered
+        self.pending = []
 
     def write(self, s):
-        f = self.probe.hit("write", s)
+        f = self.probe.hit("write", s if not self.buffered else None)
         if f:
             prefix = f[1]
-            if prefix:
+            if prefix and not self.buffered:
                 self._o.write(s[:prefix])
                 self._o.flush()
             raise f[2]()
+        if self.buffered:
+            self.pending.append(s)
+            if self.buffered == "line" and ("\n" in s or "\r" in s):
+                # line buffering, as on a tty: a newline sends everything buffered so far
+                # (an implicit flush; no fault is injected here)
+                self.deliver_pending()
+            return len(s)
         return self._o.write(s)
 
+    def deliver_pending(self):
+        if self.pending:
+            data = "".join(self.pending)
+            del self.pending[:]
+            self._o.write(data)
+            self._o.flush()
+
     def flush(self):
-        f = self.probe.hit("flush")
+        data = "".join(self.pending) if self.buffered else None
+        f = self.probe.hit("flush", data)
         if f:
+            if self.buffered:
+                del self.pending[:]
+                if f[1]:
+                    self._o.write(data[: f[1]])
+                    self._o.flush()
             raise f[2]()
+        if self.buffered and data:
+            del self.pending[:]
+            self._o.write(data)
         self._o.flush()
 
 
@@ -216,7 +249,7 @@ def build_subject(case, env, tmpdir, state):
     return call, dict(obj=image, render_attr="_render_image", animated=case["frames"] > 1, state=lambda: (image.size, image.tell(), image.closed), close=image.close)
 
 
-def run_once(case, env, tmpdir, state, fault, res):
+def run_once(case, env, tmpdir, state, fault, res, buffered=False):
     """One (possibly faulted) draw.  Returns (probe, outcome, errors)."""
     from .. import subjects as S
 
@@ -250,7 +283,7 @@ def run_once(case, env, tmpdir, state, fault, res):
     _t.tcsetattr(env.slave, _t.TCSANOW, env.sane_attr)
     attr_before = env.tcgetattr()
     env.take()
-    out = FaultOut(sys.stdout, probe, tty=True)
+    out = FaultOut(sys.stdout, probe, tty=True, buffered=buffered)
     saved = sys.stdout
     sys.stdout = out
     outcome = "returned"
@@ -263,6 +296,8 @@ def run_once(case, env, tmpdir, state, fault, res):
         outcome = type(e).__name__
     finally:
         sys.stdout = saved
+        if buffered:
+            out.deliver_pending()  # whatever is still buffered reaches the terminal later
     data = env.take()
     errs = []
     if fault is None and env.tcgetattr() != attr_before:
@@ -375,6 +410,41 @@ def run_subject(case, env, tmpdir, state, res, rnd):
                     res.violation(k, "%s API %s [%s] %s; op %d/%d %s prefix %s/%s" % (case["api"], case.get("style") or case.get("kind"), env.persona_name, msg, i, len(ops), kind, p, dlen), dict(case, fault=[i, p, exc]))
         if res.too_many():
             return
+    # second delivery model: buffered stream, faults at the flushes (the moment the bytes
+    # really go to the terminal), delivering a prefix of what was buffered
+    for bmode in ("line", "full"):
+      probe_b, outcome_b, _ = run_once(case, env, tmpdir, state, None, res, buffered=bmode)
+      if outcome_b == "returned":
+          ops_b = probe_b.ops
+          first_render_b = next((i for i, o in enumerate(ops_b) if o[0] == "render"), len(ops_b))
+          for i, (kind, cu, dlen, data) in enumerate(ops_b):
+              if kind != "flush" or cu or not dlen:
+                  continue
+              cuts = cut_points(data)
+              if len(cuts) > 5:
+                  ends = [p_ for p_ in cuts if data[p_ - 2 : p_] == "\x1b\\"]
+                  cuts = sorted(set(rnd.sample(cuts, 4)) | set(rnd.sample(ends, min(2, len(ends)))))
+              for p in sorted({0, dlen - 1, dlen // 2} | set(cuts)):
+                  for exc in ("KeyboardInterrupt", "RuntimeError"):
+                      fault = (i, p, exc_factory(exc), exc)
+                      try:
+                          pr, outcome, errs = run_once(case, env, tmpdir, state, fault, res, buffered=bmode)
+                      except Exception:
+                          errs = [("harness-exception", traceback.format_exc()[-1200:])]
+                          pr = None
+                      res.count("fault runs")
+                      if pr is None or pr.skipped_cleanup or pr.fired is None:
+                          res.count("faults skipped or not reached (buffered model)")
+                          continue
+                      res.count("fault at buffered flush")
+                      res.case((case["api"], case.get("style") or case.get("kind"), env.persona_name, i, "bflush", p, exc, str({k: v for k, v in case.items() if k != "seed"})))
+                      for key, msg in errs:
+                          k = "C07:" + key
+                          if key == "outcome" and exc == "KeyboardInterrupt" and i < first_render_b and (case.get("frames", 0) > 1 or (case["api"] == "new" and case.get("n") != 1)):
+                              k = "C07:ki-in-animation-prelude"
+                          res.violation(k, "%s API %s [%s] (" + bmode + "-buffered stream) %s; flush op %d/%d delivering %d of %d buffered chars" % (case["api"], case.get("style") or case.get("kind"), env.persona_name, msg, i, len(ops_b), p, dlen), dict(case, fault=[i, p, exc], buffered=bmode))
+              if res.too_many():
+                  return
     res.sample(dict(case, operations=len(ops), cleanup_ops=sum(1 for o in ops if o[1])))
 
 
@@ -445,8 +515,9 @@ def run_shard(shard, env):
         if "replay" in shard:
             c = dict(shard["replay"])
             f = c.pop("fault", None)
+            buffered = c.pop("buffered", False)
             if f:
-                pr, outcome, errs = run_once(c, env, tmpdir, state, (f[0], f[1], exc_factory(f[2]), f[2]), res)
+                pr, outcome, errs = run_once(c, env, tmpdir, state, (f[0], f[1], exc_factory(f[2]), f[2]), res, buffered=buffered)
                 res.case(str(c))
                 for key, msg in errs:
                     res.violation("C07:" + key, msg, shard["replay"])
